@@ -47,8 +47,8 @@ def _hist_prop(pid, modules, text, note=HIST_NOTE, configs=ONE):
     if configs == ONE:
         PROPS[pid]["quick_configs"] = ONE
 
-_hist_prop("C03", ["CC.Props.C03", "CC.Props.NonVacuity"],
-    "Lean theorems: along every history of the seven edit operations identifiers stay below a never-decreasing counter and a new attribute receives an identifier strictly greater than any ever in use (never reissued, deleted holders included); rename / disable keep identifier, hint and position; rights with different id sets differ; over every history: no operation alters an existing secret of a right (it removes the right, prepends newer secrets, or keeps the newest), a structure edit changes no secret and update_msk leaves the chain of every surviving right as it was (edits_keep_secrets, operations_never_alter_secrets), and every secret of every right involving a newly added attribute is drawn by the update that follows - nothing older can open it (new_attribute_inherits_nothing); a renamed attribute keeps its access at the level of names (renamed_attribute_keeps_access: rights of a key issued before the rename meet the right targeted after it exactly when the cover relation holds with the new names). Correspondence: random edit/update/keygen/refresh/encaps histories (delete-then-add, rename chains, dimension delete/re-add) with structure dumps, key dumps and the full decaps matrix compared between the real API and the model")
+_hist_prop("C03", ["CC.Props.C03", "CC.Props.DictRefine", "CC.Props.NonVacuity"],
+    "Lean theorems: along every history of the seven edit operations identifiers stay below a never-decreasing counter and a new attribute receives an identifier strictly greater than any ever in use (never reissued, deleted holders included); rename / disable keep identifier, hint and position; rights with different id sets differ; over every history: no operation alters an existing secret of a right (it removes the right, prepends newer secrets, or keeps the newest), a structure edit changes no secret and update_msk leaves the chain of every surviving right as it was (edits_keep_secrets, operations_never_alter_secrets), and every secret of every right involving a newly added attribute is drawn by the update that follows - nothing older can open it (new_attribute_inherits_nothing); a renamed attribute keeps its access at the level of names (renamed_attribute_keeps_access: rights of a key issued before the rename meet the right targeted after it exactly when the cover relation holds with the new names); the two-structure representation of `Dict` (hash map of positions + vector of entries, CC.Model.Dict) keeps its invariant, never indexes out of bounds, and each of its operations - insert, remove with its position shift, update_key, get, get_mut, collect, and the rebuild performed by the hierarchy arm of add_attribute - is the association-list operation the model uses (CC.Props.DictRefine). Correspondence: random edit/update/keygen/refresh/encaps histories (delete-then-add, rename chains, dimension delete/re-add) with structure dumps, key dumps and the full decaps matrix compared between the real API and the model")
 _hist_prop("C04", ["CC.Props.C04", "CC.Props.NonVacuity"],
     "Lean theorems: the repaired revision iterator reaches every secret of every chain; rekey prepends a fresh token; a key with only older tokens cannot open an encapsulation for newer ones; a chain refreshed with keep starts with the master's newest secret and has the closed form of refreshChain_spec under the contiguity invariants; over every history (contiguity of user chains inside master chains proved as an invariant of reachable worlds): a key generated anywhere, then any operations, then refreshed with keep still holds every secret it held that the master key still holds, and still opens every encapsulation it opened through such a secret (keep_refresh_keeps_secrets, keep_refresh_still_opens). Correspondence: histories with partial rekeys, refresh with both flags, encapsulation under stale public keys; chain contents and decaps matrices compared")
 _hist_prop("C05", ["CC.Props.C05", "CC.Props.NonVacuity"],
